@@ -32,14 +32,17 @@ impl<'js> IntoJs<'js> for ActValue {
             serde_json::Value::Bool(v) => JsValue::new_bool(ctx.clone(), v),
             serde_json::Value::Number(v) => {
                 if v.is_i64() {
-                    let v = v.as_i64().unwrap_or_default() as i32;
-                    JsValue::new_int(ctx.clone(), v)
-                } else if v.is_f64() {
+                    let v = v.as_i64().unwrap_or_default();
+                    if v >= i32::MIN as i64 && v <= i32::MAX as i64 {
+                        JsValue::new_int(ctx.clone(), v as i32)
+                    } else {
+                        // beyond the i32 range: a js number (exact up to 2^53)
+                        JsValue::new_float(ctx.clone(), v as f64)
+                    }
+                } else {
+                    // a float, or an integer beyond the i64 range
                     let v = v.as_f64().unwrap_or_default();
                     JsValue::new_float(ctx.clone(), v)
-                } else {
-                    let v = v.as_i64().unwrap_or_default() as i32;
-                    JsValue::new_int(ctx.clone(), v)
                 }
             }
             serde_json::Value::String(v) => {
